@@ -17,6 +17,7 @@ package str
 import (
 	"errors"
 	"fmt"
+	"strconv"
 
 	"github.com/echovault/sugardb/internal"
 	"github.com/echovault/sugardb/internal/constants"
@@ -31,8 +32,8 @@ func handleSetRange(params internal.HandlerFuncParams) ([]byte, error) {
 	key := keys.WriteKeys[0]
 	keyExists := params.KeysExist(params.Context, keys.WriteKeys)[key]
 
-	offset, ok := internal.AdaptType(params.Command[2]).(int)
-	if !ok {
+	offset, err := strconv.Atoi(params.Command[2])
+	if err != nil {
 		return nil, errors.New("offset must be an integer")
 	}
 
@@ -122,11 +123,11 @@ func handleSubStr(params internal.HandlerFuncParams) ([]byte, error) {
 	key := keys.ReadKeys[0]
 	keyExists := params.KeysExist(params.Context, keys.ReadKeys)[key]
 
-	start, startOk := internal.AdaptType(params.Command[2]).(int)
-	end, endOk := internal.AdaptType(params.Command[3]).(int)
+	start, startErr := strconv.Atoi(params.Command[2])
+	end, endErr := strconv.Atoi(params.Command[3])
 	reversed := false
 
-	if !startOk || !endOk {
+	if startErr != nil || endErr != nil {
 		return nil, errors.New("start and end indices must be integers")
 	}
 
@@ -146,7 +147,7 @@ func handleSubStr(params internal.HandlerFuncParams) ([]byte, error) {
 		end = len(value) - internal.AbsInt(end)
 	}
 
-	if end >= 0 && end >= start {
+	if end >= 0 && end >= start && end < len(value) {
 		end += 1
 	}
 
